@@ -190,7 +190,6 @@ func totalLoopFF(ff *FuncFacts, loop map[*ssa.BasicBlock]bool) (bool, string) {
 	return true, ""
 }
 
-
 // handOverSites: the places where fn hands a payload to the transport — calls of
 // sideEffectActor.deliverToRecipients, or Transport.BatchDeliver calls written in fn itself
 // (the helper inlined).
